@@ -199,7 +199,12 @@ func checkRoundTrip(c *mon.Ctx, stage string, idx int64, hr *HistRun) {
 			}
 			if af := d.AdaptationField; af != nil {
 				hdr := len(enc) - len(d.PES.Data)
-				fits := 183-(gen.AFBodySize(af)-af.StuffingLength) >= hdr
+				// with the stuffing the caller asked for (a parsed field handed back): when only the content fits next to the header,
+				// where the field travels depends on how much of the request is honoured, and is not judged
+				fits := 183-gen.AFBodySize(af) >= hdr
+				if af.StuffingLength > 0 {
+					c.Count("first_packet_af_with_requested_stuffing")
+				}
 				if !fits {
 					c.Count("af_too_big_for_first_packet")
 				} else {
